@@ -29,6 +29,12 @@ def run_property(prop: str, tier: str, seed: int, quiet=False) -> int:
         run.error('core', f'internal error {type(e).__name__}: {e}\n{traceback.format_exc(limit=8)}')
         info = getattr(mod, 'INFO', {})
     info = info or getattr(mod, 'INFO', {})
+    if tier == 'thorough' and not os.environ.get('VERIF_NO_SELFTEST'):
+        try:
+            from .selfcheck import thorough
+            thorough(run, prop)
+        except Exception as e:
+            run.error('selftest', f'self-test could not run: {type(e).__name__}: {e}')
     return run.finish(info.get('explanation', ''), info.get('rule', ''), info.get('trusted', []))
 
 
